@@ -224,7 +224,7 @@ def rule_b(ctx):
             try:
                 res = fo.call(g.node, [me, Obj("img", {"img": Opaque("arr", "I")})])
             except Raised as e:
-                ctx.ob(R, g.qname, f"{label}: " + ("an undocumented option raises" if opt not in want else "is dispatched"), opt not in want, f"raises {e.name}", g.node, evidence=True)
+                ctx.ob(R, g.qname, f"{label}: " + ("an undocumented option raises" if opt not in want else "is dispatched"), opt not in want, f"raises {e.name}", g.node, evidence=__import__("sa.fold", fromlist=["raised_by_code"]).raised_by_code(e))
                 continue
             except Refuse as e:
                 ctx.ob(R, g.qname, f"{label}: evaluated", False, f"difference not found to be foldable: {e}", g.node)
